@@ -1,0 +1,57 @@
+// +build verif
+
+package replication
+
+import "time"
+
+// Verification hooks for the DR auto-sync state machine (/verif, property C19).
+// They only export unexported entry points and fields; nothing is re-implemented here.
+
+// VerifDrAutoSyncTick runs one round of the background job.
+func (m *ModeManager) VerifDrAutoSyncTick() { m.tickDR() }
+
+// VerifDrAutoSyncPeek returns the in-memory state and state id without taking the lock
+// (for callbacks that run while a switch holds it).
+func (m *ModeManager) VerifDrAutoSyncPeek() (state string, stateID uint64) {
+	return m.drAutoSync.State, m.drAutoSync.StateID
+}
+
+// VerifDrAutoSyncRecover returns the cursor and the counters of the recovery scan.
+func (m *ModeManager) VerifDrAutoSyncRecover() (key []byte, count, sampleRecover, sampleTotal, total int) {
+	return m.drRecoverKey, m.drRecoverCount, m.drSampleRecoverCount, m.drSampleTotalRegion, m.drTotalRegion
+}
+
+// VerifDrAutoSyncSetRecover sets the cursor and the counters of the recovery scan.
+func (m *ModeManager) VerifDrAutoSyncSetRecover(key []byte, count, sampleRecover, sampleTotal, total int) {
+	m.drRecoverKey, m.drRecoverCount = key, count
+	m.drSampleRecoverCount, m.drSampleTotalRegion, m.drTotalRegion = sampleRecover, sampleTotal, total
+}
+
+// VerifDrAutoSyncEstimateProgress calls estimateProgress.
+func (m *ModeManager) VerifDrAutoSyncEstimateProgress() float32 { return m.estimateProgress() }
+
+// VerifDrAutoSyncSetInitTime sets the start time used by the async wait timeout.
+func (m *ModeManager) VerifDrAutoSyncSetInitTime(t time.Time) {
+	m.Lock()
+	defer m.Unlock()
+	m.initTime = t
+}
+
+// VerifDrAutoSyncSetMemberWaitAsyncTime sets a member's last sync time.
+func (m *ModeManager) VerifDrAutoSyncSetMemberWaitAsyncTime(memberID uint64, t time.Time) {
+	m.Lock()
+	defer m.Unlock()
+	m.drMemberWaitAsyncTime[memberID] = t
+}
+
+// VerifDrAutoSyncScanSizes returns and optionally (values > 0) sets the scan batch and
+// the minimum sample sizes.
+func VerifDrAutoSyncScanSizes(batch, sample int) (int, int) {
+	if batch > 0 {
+		regionScanBatchSize = batch
+	}
+	if sample > 0 {
+		regionMinSampleSize = sample
+	}
+	return regionScanBatchSize, regionMinSampleSize
+}
